@@ -969,12 +969,23 @@ Proof.
       match goal with H : (a =? RBRACE) = false |- _ => rewrite H end. reflexivity.
 Qed.
 
-(* ------------------------------------------------------------------ the bracket scanner on text without strings *)
+(* ------------------------------------------------------------------ the bracket scanner on JSON value text *)
 Definition plainb (c : Z) : bool := negb ((c =? QUOTE) || is_open c || is_close c).
 
+(* what stands between the quotes of a JSON string: characters other than quote and backslash,
+   and two-character escapes (a backslash and any character); every printer output has this
+   form, with or without ensure_ascii *)
+Inductive str_body : text -> Prop :=
+| sb_nil : str_body []
+| sb_char c t : c <> QUOTE -> c <> BSL -> str_body t -> str_body (c :: t)
+| sb_esc x t : str_body t -> str_body (BSL :: x :: t).
+
+(* text as the scanner meets it between two brackets: plain characters, whole JSON strings with
+   ARBITRARY content, nested bracket pairs *)
 Inductive bal : text -> Prop :=
 | bal_nil : bal []
 | bal_plain c b : plainb c = true -> bal b -> bal (c :: b)
+| bal_str t b : str_body t -> bal b -> bal (QUOTE :: t ++ QUOTE :: b)
 | bal_nest o b1 cl b2 : is_open o = true -> is_close cl = true -> bal b1 -> bal b2 -> bal (o :: b1 ++ cl :: b2).
 
 Lemma open_facts o : is_open o = true -> (o =? QUOTE) = false /\ is_close o = false.
@@ -990,27 +1001,83 @@ Proof.
   destruct (c =? 125) eqn:E2; [zb; subst; reflexivity|]. discriminate.
 Qed.
 
-Lemma scan_obj_bal b : bal b -> forall rest top below n,
-  scan_obj (b ++ rest) (top :: below) n = scan_obj rest (top :: below) (n + length b)%nat.
+(* ---- inside a string (the opening quote is on top of the stack) *)
+Lemma scan_in_plain c rest stk n : c <> QUOTE -> c <> BSL ->
+  scan_obj (c :: rest) (QUOTE :: stk) n = scan_obj rest (QUOTE :: stk) (S n).
 Proof.
-  intros B. induction B as [|c b Hc B IH|o b1 cl b2 Ho Hcl B1 IH1 B2 IH2]; intros rest top below n.
-  - cbn [app length]. f_equal. lia.
-  - unfold plainb in Hc. apply negb_true_iff in Hc. apply orb_false_iff in Hc. destruct Hc as [Hc H3].
-    apply orb_false_iff in Hc. destruct Hc as [H1 H2].
-    cbn [app scan_obj length]. rewrite H1, H3, H2. rewrite IH. f_equal. lia.
-  - destruct (open_facts o Ho) as [Q1 Q2]. pose proof (close_facts cl Hcl) as Q3.
-    cbn [app scan_obj]. rewrite Q1, Q2, Ho. rewrite <- app_assoc. rewrite IH1.
-    cbn [app scan_obj]. rewrite Q3, Hcl. rewrite IH2. f_equal. cbn [length]. rewrite app_length. cbn [length]. lia.
+  intros H1 H2. cbn [scan_obj]. change (QUOTE =? QUOTE) with true. cbv iota.
+  apply Z.eqb_neq in H1. apply Z.eqb_neq in H2. rewrite H1, H2. reflexivity.
+Qed.
+Lemma scan_in_esc x rest stk n : scan_obj (BSL :: x :: rest) (QUOTE :: stk) n = scan_obj rest (QUOTE :: stk) (S (S n)).
+Proof. reflexivity. Qed.
+
+(* the scanner leaves a string exactly at its closing quote, whatever the string holds *)
+Lemma scan_in_body t : str_body t -> forall rest stk n,
+  scan_obj (t ++ QUOTE :: rest) (QUOTE :: stk) n = scan_obj rest stk (S (n + length t))%nat.
+Proof.
+  intros B. induction B as [|c t H1 H2 B IH|x t B IH]; intros rest stk n.
+  - cbn [app length scan_obj]. change (QUOTE =? QUOTE) with true. change (QUOTE =? BSL) with false.
+    cbv iota. f_equal. lia.
+  - cbn [app]. rewrite scan_in_plain by assumption. rewrite IH. f_equal. cbn [length]. lia.
+  - cbn [app]. rewrite scan_in_esc. rewrite IH. f_equal. cbn [length]. lia.
+Qed.
+
+Lemma str_body_app a b : str_body a -> str_body b -> str_body (a ++ b).
+Proof. intros A B. induction A; cbn [app]; [exact B|apply sb_char; assumption|apply sb_esc; assumption]. Qed.
+
+Lemma u_escape_body c : 0 <= c -> str_body (u_escape c).
+Proof.
+  intros Hc. unfold u_escape. apply sb_esc.
+  assert (forall x, 0 <= x mod 16 < 16) as M by (intros x; apply Z.mod_pos_bound; lia).
+  repeat (apply sb_char; [apply hexd_plain, M|apply hexd_plain, M|]). constructor.
+Qed.
+
+Lemma esc_char_body c : 0 <= c -> str_body (esc_char c).
+Proof.
+  intros Hc. unfold esc_char.
+  repeat match goal with
+  | |- context [if ?b then _ else _] => let E := fresh "E" in destruct b eqn:E
+  end;
+  try solve [apply sb_esc; apply sb_nil].
+  - zb. apply sb_char; [unfold QUOTE in *; lia|unfold BSL in *; lia|constructor].
+  - apply u_escape_body. exact Hc.
+  - assert (0 <= (c - 65536) / 1024) by (zb; apply Z.div_pos; lia).
+    assert (0 <= ((c - 65536) / 1024) mod 1024) by (apply Z.mod_pos_bound; lia).
+    assert (0 <= (c - 65536) mod 1024) by (apply Z.mod_pos_bound; lia).
+    apply str_body_app; apply u_escape_body; lia.
+Qed.
+
+Lemma json_escape_body s : code_points s -> str_body (json_escape s).
+Proof.
+  intros F. induction F as [|c s Hc F IH]; [constructor|].
+  cbn [json_escape flat_map]. apply str_body_app; [apply esc_char_body; exact Hc|exact IH].
 Qed.
 
 Lemma scan_obj_nil s n : scan_obj s [] n = Some n.
 Proof. destruct s; reflexivity. Qed.
 
+Lemma scan_obj_bal b : bal b -> forall rest top below n, (top =? QUOTE) = false ->
+  scan_obj (b ++ rest) (top :: below) n = scan_obj rest (top :: below) (n + length b)%nat.
+Proof.
+  intros B. induction B as [|c b Hc B IH|t b Hs B IH|o b1 cl b2 Ho Hcl B1 IH1 B2 IH2]; intros rest top below n Ht.
+  - cbn [app length]. f_equal. lia.
+  - unfold plainb in Hc. apply negb_true_iff in Hc. apply orb_false_iff in Hc. destruct Hc as [Hc H3].
+    apply orb_false_iff in Hc. destruct Hc as [H1 H2].
+    cbn [app scan_obj length]. rewrite Ht, H1, H3, H2. rewrite IH by exact Ht. f_equal. lia.
+  - cbn [app scan_obj]. rewrite Ht. change (QUOTE =? QUOTE) with true. cbv iota.
+    rewrite <- app_assoc. cbn [app]. rewrite scan_in_body by exact Hs. rewrite IH by exact Ht.
+    f_equal. cbn [length]. rewrite app_length. cbn [length]. lia.
+  - destruct (open_facts o Ho) as [Q1 Q2]. pose proof (close_facts cl Hcl) as Q3.
+    cbn [app scan_obj]. rewrite Ht, Q1, Q2, Ho. rewrite <- app_assoc. rewrite IH1 by exact Q1.
+    cbn [app scan_obj]. rewrite Q1, Q3, Hcl. rewrite IH2 by exact Ht. f_equal. cbn [length]. rewrite app_length. cbn [length]. lia.
+Qed.
+
 Lemma bal_app a b : bal a -> bal b -> bal (a ++ b).
 Proof.
-  intros A B. induction A as [|c a Hc A IH|o a1 cl a2 Ho Hcl A1 IH1 A2 IH2]; cbn [app].
+  intros A B. induction A as [|c a Hc A IH|t a Hs A IH|o a1 cl a2 Ho Hcl A1 IH1 A2 IH2]; cbn [app].
   - exact B.
   - apply bal_plain; assumption.
+  - rewrite <- app_assoc. cbn [app]. apply bal_str; assumption.
   - rewrite <- app_assoc. cbn [app]. apply bal_nest; assumption.
 Qed.
 
@@ -1088,8 +1155,9 @@ Proof.
     rewrite (skipn_app_exact (key_pat K_DATA) _ _ (eq_sym (key_pat_length K_DATA))).
     unfold print_ws. cbn [app]. rewrite skip_space_app by (assumption || reflexivity).
     change (LBRACK =? QUOTE) with false. change (is_open LBRACK) with true. cbn [negb]. cbv iota.
-    rewrite <- app_assoc. rewrite (scan_obj_bal _ (bal_inner w l W P)).
-    cbn [app scan_obj]. change (RBRACK =? QUOTE) with false. change (is_close RBRACK) with true. cbv iota.
+    rewrite <- app_assoc. rewrite (scan_obj_bal _ (bal_inner w l W P)) by reflexivity.
+    cbn [app scan_obj]. change (LBRACK =? QUOTE) with false. change (RBRACK =? QUOTE) with false.
+    change (is_close RBRACK) with true. cbv iota.
     rewrite scan_obj_nil. f_equal.
     replace (key_pat K_DATA ++ sp ++ LBRACK :: print_inner w l ++ RBRACK :: post)
       with ((key_pat K_DATA ++ sp ++ LBRACK :: print_inner w l ++ [RBRACK]) ++ post)
@@ -1100,4 +1168,121 @@ Proof.
     change (LBRACK :: print_inner w l ++ [RBRACK]) with ([LBRACK] ++ print_inner w l ++ [RBRACK]).
     rewrite app_assoc. rewrite skipn_app_exact by (rewrite !app_length; cbn [length]; lia).
     apply firstn_app_exact. rewrite !app_length. cbn [length]. lia.
+Qed.
+
+(* ------------------------------------------------------------------ arrays and objects holding strings *)
+(* direct_parse_key on "key":<blanks><array or object>: the value is returned exactly, for every
+   content of the strings inside it (ids and metadata with ] [ } { quotes, backslashes) *)
+Theorem parse_key_value_ok_proof pre key sp o b cl post :
+  no_occ_before (key_pat key) (pre ++ (key_pat key ++ sp ++ o :: b ++ [cl]) ++ post) (length pre) ->
+  Forall (fun c => is_space c = true) sp -> is_open o = true -> is_close cl = true -> bal b ->
+  direct_parse_key (pre ++ (key_pat key ++ sp ++ o :: b ++ [cl]) ++ post) key
+    = ROk (key_pat key ++ sp ++ o :: b ++ [cl]).
+Proof.
+  intros Hocc Fs Ho Hcl B. destruct (open_facts o Ho) as [Q1 Q2]. pose proof (close_facts cl Hcl) as Q3.
+  assert (is_space o = false) as Sp.
+  { unfold is_open, LBRACK, LBRACE in Ho. destruct (o =? 91) eqn:E1; [zb; subst; reflexivity|].
+    destruct (o =? 123) eqn:E2; [zb; subst; reflexivity|discriminate]. }
+  unfold direct_parse_key. rewrite <- !app_assoc in *. rewrite (find_sub_app _ _ _ Hocc).
+  rewrite (skipn_app_exact pre _ _ eq_refl).
+  rewrite (skipn_app_exact (key_pat key) _ _ (eq_sym (key_pat_length key))).
+  cbn [app]. rewrite skip_space_app by assumption.
+  rewrite Q1, Ho. cbn [negb]. cbv iota.
+  rewrite <- app_assoc. rewrite (scan_obj_bal _ B) by exact Q1.
+  cbn [app scan_obj]. rewrite Q1, Q3, Hcl. rewrite scan_obj_nil. f_equal.
+  replace (key_pat key ++ sp ++ o :: b ++ cl :: post) with ((key_pat key ++ sp ++ o :: b ++ [cl]) ++ post)
+    by (repeat (rewrite <- app_assoc; cbn [app]); reflexivity).
+  apply firstn_app_exact. rewrite !app_length, key_pat_length. cbn [length]. rewrite app_length. cbn [length]. lia.
+Qed.
+
+(* every value json.dumps prints is such a text *)
+Definition plain_text (t : text) : Prop := Forall (fun c => plainb c = true) t.
+Fixpoint jv_ok (v : jv) : Prop :=
+  match v with
+  | JNull | JTrue | JFalse => True
+  | JNum tok => plain_text tok
+  | JStr s => code_points s
+  | JArr l => (fix go (l : list jv) : Prop := match l with [] => True | x :: r => jv_ok x /\ go r end) l
+  | JObj l => (fix go (l : list (text * jv)) : Prop :=
+                 match l with [] => True | (k, x) :: r => code_points k /\ jv_ok x /\ go r end) l
+  end.
+
+Lemma bal_jstring s : code_points s -> bal (print_jstring s).
+Proof.
+  intros H. unfold print_jstring. cbn [app].
+  change (QUOTE :: json_escape s ++ [QUOTE]) with (QUOTE :: json_escape s ++ QUOTE :: []).
+  apply bal_str; [apply json_escape_body; exact H|constructor].
+Qed.
+
+Lemma bal_brackets o b cl : is_open o = true -> is_close cl = true -> bal b -> bal ([o] ++ b ++ [cl]).
+Proof. intros. cbn [app]. change (o :: b ++ [cl]) with (o :: b ++ cl :: []). apply bal_nest; try assumption. constructor. Qed.
+
+Lemma dumps_bal : forall v, jv_ok v -> bal (dumps v).
+Proof.
+  fix IH 1. intros v. destruct v as [ | | | tok | s | l | l]; intros H.
+  - apply plain_bal. repeat constructor.
+  - apply plain_bal. repeat constructor.
+  - apply plain_bal. repeat constructor.
+  - apply plain_bal. exact H.
+  - apply bal_jstring. exact H.
+  - cbn [dumps]. apply bal_brackets; [reflexivity|reflexivity|]. simpl in H.
+    induction l as [|x r IHr]; [constructor|]. destruct H as [Hx Hr].
+    destruct r as [|y r']; [apply IH; exact Hx|].
+    apply bal_app; [apply IH; exact Hx|]. apply bal_app; [apply plain_bal; repeat constructor|apply IHr; exact Hr].
+  - cbn [dumps]. apply bal_brackets; [reflexivity|reflexivity|]. simpl in H.
+    induction l as [|[k x] r IHr]; [constructor|]. destruct H as [Hk [Hx Hr]].
+    destruct r as [|[k2 y] r'].
+    + apply bal_app; [apply bal_jstring; exact Hk|]. apply bal_app; [apply plain_bal; repeat constructor|apply IH; exact Hx].
+    + apply bal_app; [apply bal_jstring; exact Hk|]. apply bal_app; [apply plain_bal; repeat constructor|].
+      apply bal_app; [apply IH; exact Hx|]. apply bal_app; [apply plain_bal; repeat constructor|apply IHr; exact Hr].
+Qed.
+
+Definition arr_items : list jv -> text :=
+  fix go (l : list jv) : text :=
+    match l with [] => [] | [x] => dumps x | x :: r => dumps x ++ SEP_ITEM ++ go r end.
+Definition obj_items : list (text * jv) -> text :=
+  fix go (l : list (text * jv)) : text :=
+    match l with
+    | [] => []
+    | [(k, x)] => print_jstring k ++ SEP_KEY ++ dumps x
+    | (k, x) :: r => print_jstring k ++ SEP_KEY ++ dumps x ++ SEP_ITEM ++ go r
+    end.
+Lemma dumps_arr l : dumps (JArr l) = LBRACK :: arr_items l ++ [RBRACK].
+Proof. reflexivity. Qed.
+Lemma dumps_obj l : dumps (JObj l) = LBRACE :: obj_items l ++ [RBRACE].
+Proof. reflexivity. Qed.
+
+Lemma arr_items_bal l : jv_ok (JArr l) -> bal (arr_items l).
+Proof.
+  simpl. induction l as [|x r IHr]; intros H; [constructor|]. destruct H as [Hx Hr].
+  destruct r as [|y r']; [apply dumps_bal; exact Hx|].
+  change (arr_items (x :: y :: r')) with (dumps x ++ SEP_ITEM ++ arr_items (y :: r')).
+  apply bal_app; [apply dumps_bal; exact Hx|]. apply bal_app; [apply plain_bal; repeat constructor|apply IHr; exact Hr].
+Qed.
+
+Lemma obj_items_bal l : jv_ok (JObj l) -> bal (obj_items l).
+Proof.
+  simpl. induction l as [|[k x] r IHr]; intros H; [constructor|]. destruct H as [Hk [Hx Hr]].
+  destruct r as [|[k2 y] r'].
+  - change (obj_items [(k, x)]) with (print_jstring k ++ SEP_KEY ++ dumps x).
+    apply bal_app; [apply bal_jstring; exact Hk|]. apply bal_app; [apply plain_bal; repeat constructor|apply dumps_bal; exact Hx].
+  - change (obj_items ((k, x) :: (k2, y) :: r'))
+      with (print_jstring k ++ SEP_KEY ++ dumps x ++ SEP_ITEM ++ obj_items ((k2, y) :: r')).
+    apply bal_app; [apply bal_jstring; exact Hk|]. apply bal_app; [apply plain_bal; repeat constructor|].
+    apply bal_app; [apply dumps_bal; exact Hx|]. apply bal_app; [apply plain_bal; repeat constructor|apply IHr; exact Hr].
+Qed.
+
+(* "rows"/"columns" (any key) followed by an array or object printed by json.dumps: ids and
+   metadata strings of arbitrary content *)
+Theorem parse_key_dumps_ok_proof pre key sp v post :
+  (exists l, v = JArr l) \/ (exists l, v = JObj l) -> jv_ok v ->
+  no_occ_before (key_pat key) (pre ++ (key_pat key ++ sp ++ dumps v) ++ post) (length pre) ->
+  Forall (fun c => is_space c = true) sp ->
+  direct_parse_key (pre ++ (key_pat key ++ sp ++ dumps v) ++ post) key = ROk (key_pat key ++ sp ++ dumps v).
+Proof.
+  intros Hv Hok Hocc Fs. destruct Hv as [[l ->]|[l ->]].
+  - rewrite dumps_arr in *. apply parse_key_value_ok_proof; try assumption; try reflexivity.
+    apply arr_items_bal. exact Hok.
+  - rewrite dumps_obj in *. apply parse_key_value_ok_proof; try assumption; try reflexivity.
+    apply obj_items_bal. exact Hok.
 Qed.
